@@ -47,7 +47,7 @@ m = {
                  'kind_free_text': 'rustc_private driver (nightly) dumping MIR/ADT/const/format_args facts of /repo as JSON; python3 rule engine: dominance, reachability with cut sets, exit classification, may/must effect summaries with constant specialisation, def-use flow, field write sets, finite-table extraction'}],
     'checks': checks,
     'not_applicable': na,
-    'notes': 'All checks are static (family: static analysis). Three genuine defects found by the rules on the pinned commit were repaired in /repo as separate fix: commits (e593aaf, 77febaa, 8a84cd9) and are listed as fixed in /verif/known_findings.json. See DESIGN.md.',
+    'notes': 'All checks are static (family: static analysis). Four genuine defects were repaired in /repo as separate fix: commits (e593aaf, 77febaa, 8a84cd9 found by the rules on the pinned commit; b18ff6e found during the last seeded round, reproduced, and now decided by rule GC13) and are listed as fixed in /verif/known_findings.json. See DESIGN.md.',
 }
 json.dump(m, open(os.path.join(VERIF, 'MANIFEST.json'), 'w'), indent=1)
 print('claimed:', [c['property_id'] for c in checks], 'n/a:', [x['property_id'] for x in na])
